@@ -57,9 +57,9 @@ def ORACLE(name, v, grp):
 
 
 shared.warm(lambda name, s: ORACLE(name, s, 'A'))
-shared.emit(globals(), "input not mutated", names=[n for n in CONVS if n in shared.MAPPISH], groups='AC', quick_groups='C')
+shared.emit(globals(), "input not mutated", names=[n for n in CONVS if n in shared.MAPPISH], groups='AC', quick_groups='C', timeout=180)
 shared.emit(globals(), "input not mutated", names=[n for n in CONVS if n in shared.SEQISH and n not in shared.MAPPISH], groups='B', quick_groups='')
-shared.emit_td(globals(), "input not mutated")
+shared.emit_td(globals(), "input not mutated", timeout=240)
 
 
 # ------------------------------------------------------------------ mutable-mapping inputs that grow on read / nested tagged unions
